@@ -1089,5 +1089,5 @@ def rule_internal_class_match(ctx):
             else:
                 ctx.violated("INTERNALCLS", key, f.where(c[5]), "`%s` compares over the length of `%s`, not of the reserved name `%s`: a class that is a prefix of a reserved name is taken "
                              "for internal" % (render(c)[:70], render(strip(ln[3][0]))[:30], render(strip(tabs[0]))[:30]))
-    ctx.floor("INTERNALCLS", 3, n, "(comparisons against the tables of reserved class names)")
+    ctx.floor("INTERNALCLS", 2, n, "(comparisons against the tables of reserved class names)")
     return n
